@@ -18,6 +18,16 @@
   flow and the results of the real evaluation (pass loop exit, needs_calc, tolerance compare, fit_to_range target,
   the compiler CELL/INDEX read through).
 
+  Module-level mutables of the pycel modules, enumerated (harness/tablegen/c07.py snapshots all of them around a
+  multi-compiler workload; `sharedWritten` lists the ones that changed, theorem `C07_shared_enumeration`):
+    written during operations : `_Cell.ctr` (modelled: `Shared.ctr`), every library function's
+                                `excel_func_meta['name_space']` (modelled: `Shared.metaNs`)
+    per thread                : `_IterativeEvalTracker._ns`, `_ArrayFormulaContext._ns` (modelled: `Locals`)
+    written at import only    : `function_helpers.star_args` (filled by the decorators, never read), the constant tables
+                                (`OPERATORS`, `Token.precedences`, `func_map`, `_SIZE_MASK`, …)
+    transparent               : `get_column_letter` lru_cache (pure memo), the shared `pycel` logger (no result reads it)
+    per compiler              : cell_map, dep_graph, the eval context with its `error_messages` list, formula lambdas
+
   WHERE each namespace lives is a parameter (`Placement`), measured from the live code by harness/tablegen/c07.py
   (Generated/Threads.lean).  With `Place.moduleGlobal` every thread reads and writes the same copy.
 -/
